@@ -4,6 +4,7 @@ import Mathlib.LinearAlgebra.Matrix.NonsingularInverse
 # C10 — the normal equations of the masked least-squares problem
 -/
 set_option linter.unusedSectionVars false
+set_option linter.unusedSimpArgs false
 namespace C10L
 open Model.C10
 
@@ -168,4 +169,144 @@ theorem lstsq_exists_unique [DecidableEq κ] (V : Finset ι) (M : κ → ι → 
   intro w' hw'
   exact normal_eq_unique V M d hindep w' w (fun k => minimiser_normal_eq V M d w' hw' k) hN
 end Normal
+/-! ## the executed re-check (`Model.C10.normalResidual`, a list program) implies the abstract normal equations -/
+section Bridge
+variable {R : Type} [CommRing R] [Div R]
+
+theorem dot_eq_sum : ∀ (a b : List R) (n : Nat), a.length = n → b.length = n →
+    dot a b = ∑ i ∈ Finset.range n, nth a i * nth b i := by
+  intro a
+  induction a with
+  | nil => intro b n ha hb; simp at ha; subst ha; simp [dot]
+  | cons x xs ih =>
+    intro b n ha hb
+    cases b with
+    | nil => simp at hb; subst hb; simp at ha
+    | cons y ys =>
+      cases n with
+      | zero => simp at ha
+      | succ m =>
+        simp only [List.length_cons, Nat.add_right_cancel_iff] at ha hb
+        rw [Finset.sum_range_succ']
+        simp only [dot, nth_zero, nth_succ]
+        rw [ih ys m ha hb]; ring
+
+theorem wsum_eq_sum (q : Nat → R) : ∀ (l : List R) (k : Nat),
+    wsum q k l = ∑ j ∈ Finset.range l.length, nth l j * q (k + j) := by
+  intro l
+  induction l with
+  | nil => intro k; simp [wsum]
+  | cons s rest ih =>
+    intro k
+    rw [List.length_cons, Finset.sum_range_succ']
+    simp only [wsum, nth_zero, nth_succ, Nat.add_zero]
+    rw [ih (k+1)]
+    have : ∀ j, k + 1 + j = k + (j + 1) := by intro j; omega
+    simp only [this]; ring
+
+theorem nth_zip_sub (a b : List R) (n i : Nat) (ha : a.length = n) (hb : b.length = n) (hi : i < n) :
+    nth ((a.zip b).map fun (p : R × R) => p.1 - p.2) i = nth a i - nth b i := by
+  unfold nth
+  have h1 : i < a.length := by omega
+  have h2 : i < b.length := by omega
+  simp [List.getD_eq_getElem?_getD, List.getElem?_map, List.getElem?_zip_eq_some, h1, h2, List.getElem?_eq_getElem]
+
+theorem nth_map_list {α : Type} (f : α → R) (l : List α) (i : Nat) (hi : i < l.length) :
+    nth (l.map f) i = f (l[i]) := by
+  unfold nth
+  simp [List.getD_eq_getElem?_getD, List.getElem?_map, List.getElem?_eq_getElem hi]
+
+/-- entry `k` of `normalResidual` is the `k`-th normal equation on the kept samples -/
+theorem normalResidual_entry (modes : List (List R)) (data : List R) (mask : List Bool) (w : List R)
+    (hshape : ∀ c ∈ modes.map (maskSel mask), c.length = (maskSel mask data).length)
+    (k : Nat) (hk : k < (modes.map (maskSel mask)).length) :
+    nth (normalResidual modes data mask w) k =
+      ∑ i ∈ Finset.range (maskSel mask data).length,
+        nth ((modes.map (maskSel mask)).getD k []) i *
+          (∑ j ∈ Finset.range (modes.map (maskSel mask)).length, nth w j * nth ((modes.map (maskSel mask)).getD j []) i
+            - nth (maskSel mask data) i) := by
+  set cols := modes.map (maskSel mask) with hcols
+  set d := maskSel mask data with hd
+  set n := d.length with hn
+  unfold normalResidual
+  simp only [← hcols, ← hd]
+  rw [nth_map_list _ cols k hk]
+  have hck : (cols[k]).length = n := hshape _ (List.getElem_mem hk)
+  have hgetk : cols.getD k [] = cols[k] := by simp [List.getD_eq_getElem?_getD, List.getElem?_eq_getElem hk]
+  have hfitlen : ((List.range d.length).map fun i => wsum (fun k => nth w k) 0 (cols.map fun c => nth c i)).length = n := by simp [hn]
+  have hreslen : ((((List.range d.length).map fun i => wsum (fun k => nth w k) 0 (cols.map fun c => nth c i)).zip d).map
+      fun (p : R × R) => p.1 - p.2).length = n := by simp [hn]
+  rw [dot_eq_sum _ _ n hck hreslen, hgetk]
+  apply Finset.sum_congr rfl
+  intro i hi
+  have hi' : i < n := Finset.mem_range.mp hi
+  rw [nth_zip_sub _ _ n i hfitlen rfl hi', nth_map_range, if_pos (by omega), wsum_eq_sum]
+  congr 2
+  rw [List.length_map]
+  apply Finset.sum_congr rfl
+  intro j hj
+  have hj' : j < cols.length := Finset.mem_range.mp hj
+  rw [nth_map_list _ cols j hj']
+  have : cols.getD j [] = cols[j] := by simp [List.getD_eq_getElem?_getD, List.getElem?_eq_getElem hj']
+  rw [this, Nat.zero_add]; ring
+end Bridge
+
+section BridgeField
+variable {F : Type} [Field F] [LinearOrder F] [IsStrictOrderedRing F]
+
+/-- **the run-time re-check is enough**: if the list program `normalResidual` returns zeros for a reply `w` (what the driver tests, in
+exact rational arithmetic, before it attaches the flag `normal-equations-hold`), the kept data are synthesised from the kept modes
+with coefficients `c`, and the kept modes are independent, then `w` IS `c`, entry by entry -/
+theorem flagged_reply_is_synthesis (modes : List (List F)) (data : List F) (mask : List Bool) (w : List F) (c : Nat → F)
+    (hshape : ∀ col ∈ modes.map (maskSel mask), col.length = (maskSel mask data).length)
+    (hz : ∀ k, k < (modes.map (maskSel mask)).length → nth (normalResidual modes data mask w) k = 0)
+    (hsyn : ∀ i, i < (maskSel mask data).length →
+      nth (maskSel mask data) i = ∑ j ∈ Finset.range (modes.map (maskSel mask)).length, c j * nth ((modes.map (maskSel mask)).getD j []) i)
+    (hindep : ∀ v : Nat → F, (∀ i, i < (maskSel mask data).length →
+      ∑ j ∈ Finset.range (modes.map (maskSel mask)).length, v j * nth ((modes.map (maskSel mask)).getD j []) i = 0) →
+      ∀ j, j < (modes.map (maskSel mask)).length → v j = 0) :
+    ∀ j, j < (modes.map (maskSel mask)).length → nth w j = c j := by
+  set cols := modes.map (maskSel mask) with hcols
+  set d := maskSel mask data with hd
+  -- abstract problem over Fin
+  let V : Finset (Fin d.length) := Finset.univ
+  let M : Fin cols.length → Fin d.length → F := fun k i => nth (cols.getD k []) i
+  let dd : Fin d.length → F := fun i => nth d i
+  let cc : Fin cols.length → F := fun k => c k
+  let ww : Fin cols.length → F := fun k => nth w k
+  have hsyn' : ∀ i ∈ V, dd i = ∑ k, cc k * M k i := by
+    intro i _
+    simp only [dd, cc, M]
+    rw [hsyn i i.isLt, Finset.sum_range]
+  have hindep' : ∀ v : Fin cols.length → F, (∀ i ∈ V, ∑ k, v k * M k i = 0) → v = 0 := by
+    intro v hv
+    let v' : Nat → F := fun j => if h : j < cols.length then v ⟨j, h⟩ else 0
+    have := hindep v' (by
+      intro i hi
+      have h1 := hv ⟨i, hi⟩ (Finset.mem_univ _)
+      rw [Finset.sum_range]
+      simp only [v', M] at h1 ⊢
+      rw [← h1]
+      apply Finset.sum_congr rfl
+      intro k _
+      simp [k.isLt])
+    funext k
+    have h2 := this k k.isLt
+    simpa [v', k.isLt] using h2
+  have hN : ∀ k, ∑ i ∈ V, M k i * (∑ j, ww j * M j i - dd i) = 0 := by
+    intro k
+    have h1 := hz k k.isLt
+    rw [normalResidual_entry modes data mask w hshape k k.isLt] at h1
+    simp only [← hcols, ← hd] at h1
+    rw [Finset.sum_range] at h1
+    simp only [V, M, ww, dd]
+    rw [← h1]
+    apply Finset.sum_congr rfl
+    intro i _
+    rw [Finset.sum_range]
+  have key := normal_eq_recovers V M dd cc hsyn' hindep' ww hN
+  intro j hj
+  have := congrFun key ⟨j, hj⟩
+  simpa [ww, cc] using this
+end BridgeField
 end C10L
